@@ -1,9 +1,11 @@
 (* Extraction of the executable model and of the property checkers.
    Only ExtrOcamlBasic is used; N, Z, positive and nat stay inductive. *)
 From Coq Require Import Extraction ExtrOcamlBasic.
-From RS Require Import Base.Prelude Codec.Vlq Codec.CodecSpec Checkers.ChkCodec Api.ApiCodec.
+From RS Require Import Base.Prelude Codec.Vlq Codec.CodecSpec Checkers.ChkCodec Api.ApiCodec
+  Base.Text Rope.RopeModel Rope.RopeProg Checkers.ChkRope Api.ApiRope.
 
 Extraction Language OCaml.
 Separate Extraction
   api_codec_enc api_codec_dec api_codec_vlq chk_C12_enc chk_C12_dec
+  api_rope api_rope_check api_rope_valid
   N.of_nat N.to_nat Z.of_N Z.to_N N.add N.mul N.eqb.
